@@ -114,4 +114,33 @@ PROPS = {
                                      'error kinds are recognised on the Go side by message text (the message names the field / argument)'],
         'assumptions': ['exactly one defect per document', 'object types registered to Go types', 'fragment definitions on undefined types are finding F10a (known, pinned by the test-suite)'],
     },
+    'C04': {
+        'level': 'proof',
+        'correspondence': 'Coerce.coerce_input == InCoercer.CoerceIn of the library type objects; oracle Coerce.conforms / Coerce.denotes',
+        'rule': ('leaf sweep: every input leaf type (Int, Int64, Float, Float64, String, Boolean, ID, Time, enum), bare and under NonNull, x a zoo of ~330 Go values: every integer kind '
+                 '(int..uint64) at 0, +-1, 127/128/255, 32767/65535, +-2^31 and +-1 around, 2^32 and +-1, 2^53+1, +-2^63, 2^64-1; float64 and float32 incl. 2^31, 2^32+1, 2^53+1, +-9.3e18, +-1e39 (float32 overflow), '
+                 '3.4e38, 1e-50, NaN, +-Inf; 20 strings (numeric, out-of-range numeric, boolean words, RFC 3339, empty, padded); symbols (member / not), times, a foreign struct; then random nestings of lists, '
+                 'non-null and two input-object types (required field, default, list field, nested input, undeclared keys) with values of the right family and leaves of the zoo. Floats, strconv and time '
+                 'results are computed by Go and enter the model as abstract facts. non-trivial = every case (each is a distinct type x value); distinct by input text.'),
+        'explanation': ('Theorems C04_delivered_values_conform (coerce_input_sound: for every input type expression and every value, a successful coercion delivers a value that conforms to the declared '
+                        'type and denotes what the client wrote), C04_reject (contrapositive), C04_non_null; defects F07 repaired by fix commits. PARTIAL: the end-to-end path (literals and variables of a '
+                        'request reaching a resolver) is covered for scalar and enum arguments by the executor model (C01 call log) and for lists/input objects only at this leaf level; reflection-strategy '
+                        'arguments (finding F03) are outside.'),
+        'trusted_base': COMMON_TB + ['modelled rather than verified: CoerceIn of intscalar.go, int64scalar.go, floatscalar.go, float64scalar.go, stringscalar.go, booleanscalar.go, idscalar.go, timescalar.go, enum.go, list.go, nonnull.go, input.go (map values, no registered Go struct)',
+                                     'IEEE arithmetic, strconv.ParseInt/ParseFloat/ParseBool/FormatFloat and time.Parse/Format are Go\'s: their results enter the model as data of the case (flt / str records)'],
+        'assumptions': ['Go map keys are distinct; declared defaults conform to their field types (schema validation)', 'Relaxed = false'],
+    },
+    'C05': {
+        'level': 'proof',
+        'correspondence': 'Coerce.leaf_out == OutCoercer.CoerceOut of the library type objects; oracle Coerce.has_shape / out_faithful; the composite levels are the executor theorems (C01/C06)',
+        'rule': ('leaf sweep: every output leaf type (Int, Int64, Float, Float64, String, Boolean, ID, Time, enum) x the same zoo of ~330 Go values as C04 (every numeric kind and boundary, numeric and '
+                 'non-numeric strings, NaN/Inf, wrong kinds, times, foreign values); typed slices and ill-typed leaves inside whole responses are exercised by the executor checks (C01/C06 profiles). '
+                 'non-trivial = every case; distinct by input text.'),
+        'explanation': ('Theorems C05_leaf_well_typed (output coercion yields the declared JSON shape or fails), C05_no_leak (a failing coercion returns nil: nothing unconverted reaches the response), '
+                        'C05_leaf_faithful (no wrapping / re-interpretation); C05_refuted_enum_membership records finding F06e; six defects repaired by fix commits. PARTIAL: object/list shape and null-plus-error '
+                        'placement are carried by the executor refinement (C01/C06), where leaf coercion is modelled on a smaller value universe.'),
+        'trusted_base': COMMON_TB + ['modelled rather than verified: CoerceOut of the scalar files and enum.go; resolve.go stores what CoerceOut returns',
+                                     'IEEE arithmetic, strconv and time formatting are Go\'s (abstract facts supplied by the harness)'],
+        'assumptions': ['within MaxResolveDepth', 'enum leaves are not checked for membership: finding F06e (known, pinned by the test-suite)'],
+    },
 }
